@@ -231,6 +231,7 @@ pub fn gen_c06_qf_lastslot(ctx: &mut Ctx, ncases: u64) {
 
 pub fn gen_c06(ctx: &mut Ctx) {
     gen_c06_cuckoo_loaded(ctx, 40 * ctx.tier_scale);
+    gen_c06_cuckoo_sparse(ctx, 60 * ctx.tier_scale);
     gen_c06_qf_lastslot(ctx, 12 * ctx.tier_scale);
     bloom_sparse_unions(ctx, 60 * ctx.tier_scale);
     for round in 0..(16 * ctx.tier_scale) {
@@ -366,6 +367,42 @@ pub fn gen_c06_cuckoo_loaded(ctx: &mut Ctx, ncases: u64) {
             observe_both(ctx, f, 1, 3, &keys.univ);
         }
         observe_both(ctx, f, 2, 4, &keys.univ);
+    }
+}
+
+/// cuckoo unions of *sparse* filters whose fingerprint width does not divide 64: slots straddle the
+/// 64-bit words of the packed table, and most words of `other` are zero (what a word-wise scan skips);
+/// half of the cases use small fingerprint values (high bits zero) under the identity-like hasher
+pub fn gen_c06_cuckoo_sparse(ctx: &mut Ctx, ncases: u64) {
+    let f = &FAMS[4];
+    for _ in 0..ncases {
+        ctx.case("c06.cuckoo.sparse");
+        let small = ctx.rng.chance(1, 2);
+        let bh = if small { ScriptBH::xor() } else { ctx.rand_hasher() };
+        ctx.hasher(bh);
+        let lf = *ctx.rng.pick(&[3u64, 5, 7, 9, 11, 12, 13, 21, 33, 63]);
+        let c = CuckooCfg { bs: *ctx.rng.pick(&[2u64, 3, 4, 5, 8]), nb: 1u64 << ctx.rng.range(1, 6), lf };
+        let cfg = vec![c.bs, c.nb, c.lf];
+        let fpmod = (1u64 << lf) - 1;
+        let mut univ: Vec<u64> = vec![];
+        for _ in 0..12 {
+            univ.push(if small { ctx.rng.below(4).wrapping_add(fpmod.wrapping_mul(ctx.rng.below(4000))) } else { ctx.rng.next() });
+        }
+        for id in 1..=4 {
+            fam_new(ctx, f, id, &cfg);
+        }
+        let sa = stream(ctx, &univ, ctx.rng.clone().below(3));
+        let sb = stream(ctx, &univ, 1 + ctx.rng.clone().below(3));
+        let sa = feed_ok(ctx, f, 1, &sa);
+        let sb = feed_ok(ctx, f, 2, &sb);
+        let ok = feed(ctx, f, 3, &sa) && feed(ctx, f, 3, &sb);
+        ctx.op("cuckoo.clone 2 4".into());
+        let a = ctx.op("cuckoo.union 1 2".into());
+        if a == "ok" && ok {
+            ctx.stat("c06.cuckoo.sparse.compared", 1);
+            observe_both(ctx, f, 1, 3, &univ);
+        }
+        observe_both(ctx, f, 2, 4, &univ);
     }
 }
 
@@ -1006,6 +1043,12 @@ pub fn gen_td(ctx: &mut Ctx, n: u64) {
 
 // --------------------------------------------------------------------------------------------
 pub fn gen_c19(ctx: &mut Ctx) {
+    for c in 0..(2 * ctx.tier_scale.min(4)) {
+        ctx.case("c19.hll.saturated");
+        let bh = ctx.rand_hasher();
+        ctx.hasher(bh);
+        crate::gen::hll::hll_saturated_lifecycle(ctx, 4 + c % 2);
+    }
     for _ in 0..(8 * ctx.tier_scale) {
         // filters, cms, hll: history; clear vs fresh; clone independence
         for f in FAMS {
@@ -1033,7 +1076,7 @@ pub fn gen_c19(ctx: &mut Ctx) {
             // (clone() and clone_from() into an instance that already holds something else)
             ctx.op(format!("{}.clone 1 6", f.name));
             // the receiver of clone_from: another configuration (half of the time), another hasher
-            let bh2 = ctx.rand_hasher();
+            let bh2 = if ctx.rng.chance(2, 3) { ctx.rand_hasher() } else { bh };
             ctx.hasher(bh2);
             let cfg2 = if ctx.rng.chance(1, 2) { fam_cfg(ctx, f).0 } else { cfg.clone() };
             fam_new(ctx, f, 7, &cfg2);
@@ -1518,6 +1561,13 @@ pub fn gen_c03(ctx: &mut Ctx) {
         ctx.op("hll.merge 2 1".into());
         ctx.op("both hll.count 2 1".into());
     }
+    // saturated sketches that were merged into / rebuilt / deserialised, then cleared and re-used
+    for c in 0..(3 * ctx.tier_scale.min(4)) {
+        ctx.case("c03.saturated");
+        let bh = if c % 2 == 0 { ScriptBH::xor() } else { ctx.rand_hasher() };
+        ctx.hasher(bh);
+        crate::gen::hll::hll_saturated_lifecycle(ctx, 4 + c % 3);
+    }
     // arbitrary register contents (all 256 byte values), explicit vectors for small precisions
     for _ in 0..(20 * ctx.tier_scale) {
         ctx.case("c03.arbitrary");
@@ -1540,6 +1590,16 @@ pub fn gen_c03(ctx: &mut Ctx) {
             .collect();
         ctx.op(format!("hll.with 1 {} {}", b, regs.join(" ")));
         ctx.op("hll.count 1".into());
+        // a sketch built from the caller's vector is cleared and used again
+        if ctx.rng.chance(1, 2) {
+            ctx.op("hll.clear 1".into());
+            ctx.op("hll.regs 1".into());
+            ctx.op("hll.count 1".into());
+            ctx.op(format!("hll.addmany 1 {} {}", ctx.rng.clone().next(), 3 * m));
+            ctx.op("hll.regs 1".into());
+            ctx.op("hll.count 1".into());
+            ctx.op("hll.relerr 1".into());
+        }
         ctx.stat("c03.arbitrary", 1);
     }
 }
@@ -1553,7 +1613,8 @@ pub fn gen_c05(ctx: &mut Ctx) {
 }
 
 pub fn gen_c07(ctx: &mut Ctx) {
-    let ps = [0.999f64, 0.9, 0.75, 0.51, 0.5, 0.49, 0.3, 0.25, 0.125, 0.1, 0.01, 0.001, 1e-6, 1e-12, 1e-19, 1e-300];
+    // down to subnormal p (1/p overflows there; -log2 p and ln p do not)
+    let ps = [0.999f64, 0.9, 0.75, 0.51, 0.5, 0.49, 0.3, 0.25, 0.125, 0.1, 0.01, 0.001, 1e-6, 1e-12, 1e-19, 1e-300, 1e-310, 5e-324];
     let ns = [1u64, 2, 3, 10, 50, 1000, 20_000];
     for &n in &ns {
         for &p in &ps {
